@@ -69,10 +69,30 @@ class Lock:
 
 # ------------------------------------------------------------------------------------------------ hygiene
 
-def hygiene():
-    """grep the Coq development for anything that declares an axiom or switches off a kernel check."""
+REQ_RE = re.compile(r"\bV\.(lib|models|proofs|props|gen)\.([A-Za-z0-9_']+)")
+
+
+def coq_closure(roots):
+    """the .v files (absolute paths) transitively required by the given files (paths relative to coq/), by
+    scanning for V.<dir>.<File> module names. Used so that a check only looks at the part of the development it
+    depends on (other properties' files may be under construction)."""
+    seen, todo = [], [os.path.join(COQ, r) for r in roots]
+    while todo:
+        f = todo.pop()
+        if f in seen or not os.path.exists(f):
+            continue
+        seen.append(f)
+        for d, m in REQ_RE.findall(open(f, errors="replace").read()):
+            todo.append(os.path.join(COQ, d, m + ".v"))
+    return sorted(seen)
+
+
+def hygiene(roots=None):
+    """grep the Coq development (all of it, or the closure of the given root files) for anything that declares
+    an axiom or switches off a kernel check."""
     bad = []
-    for f in sorted(glob.glob(os.path.join(COQ, "**", "*.v"), recursive=True)):
+    files = coq_closure(roots) if roots else sorted(glob.glob(os.path.join(COQ, "**", "*.v"), recursive=True))
+    for f in files:
         txt = open(f, errors="replace").read()
         # strip comments (nested) before grepping so prose may mention the words
         out, depth, i = [], 0, 0
